@@ -1780,6 +1780,215 @@ theorem hlgDecodePos_monotoneOn_exp : MonotoneOn (hlgDecodePos : ℝ → ℝ) (S
     apply div_le_div_of_nonneg_right _ (by norm_num); linarith
   linarith
 
+/-! ### HLG: the breakpoints, numerically -/
+
+/-- `exp((0.5 − 0.5599107)/0.17883277)` to ten digits (Taylor polynomial of degree 11 at the
+rational point, `Real.exp_bound`). The true value is 0.715331198118… -/
+theorem hlg_exp_enclosure :
+    (0.71533119804 : ℝ) < Real.exp (-5991070 / 17883277) ∧
+      Real.exp (-5991070 / 17883277) < (0.71533119816 : ℝ) := by
+  have hx : |(-5991070 / 17883277 : ℝ)| ≤ 1 := by
+    rw [abs_le]; constructor <;> norm_num
+  have h := Real.exp_bound hx (n := 12) (by norm_num)
+  have habs : |(-5991070 / 17883277 : ℝ)| = 5991070 / 17883277 := by
+    rw [abs_of_neg (by norm_num)]; norm_num
+  rw [habs, abs_le] at h
+  obtain ⟨h1, h2⟩ := h
+  have e1 : (0.71533119804 : ℝ) + (5991070 / 17883277 : ℝ) ^ 12 *
+      (((12 : ℕ).succ : ℝ) / (((12 : ℕ).factorial : ℝ) * ((12 : ℕ) : ℝ))) <
+      ∑ m ∈ Finset.range 12, (-5991070 / 17883277 : ℝ) ^ m / (m.factorial : ℝ) := by
+    simp only [Finset.sum_range_succ, Finset.sum_range_zero, Nat.factorial]
+    norm_num
+  have e2 : (∑ m ∈ Finset.range 12, (-5991070 / 17883277 : ℝ) ^ m / (m.factorial : ℝ)) +
+      (5991070 / 17883277 : ℝ) ^ 12 *
+      (((12 : ℕ).succ : ℝ) / (((12 : ℕ).factorial : ℝ) * ((12 : ℕ) : ℝ))) < 0.71533119816 := by
+    simp only [Finset.sum_range_succ, Finset.sum_range_zero, Nat.factorial]
+    norm_num
+  constructor <;> linarith
+
+/-- the first linear sample that `hlgDecodePos ∘ hlgEncodePos` returns unchanged again:
+`(exp((0.5 − C)/A) + B)/12 = 0.0833333431765…` -/
+noncomputable def hlgGapEnd : ℝ := (Real.exp (-5991070 / 17883277) + 0.28466892) / 12
+
+theorem hlgGapEnd_bounds : (0.08333334317 : ℝ) < hlgGapEnd ∧ hlgGapEnd < 0.08333334318 := by
+  obtain ⟨h1, h2⟩ := hlg_exp_enclosure
+  unfold hlgGapEnd
+  constructor
+  · rw [lt_div_iff₀ (by norm_num)]; linarith
+  · rw [div_lt_iff₀ (by norm_num)]; linarith
+
+/-- the logarithmic piece exceeds the decoder's breakpoint exactly beyond `hlgGapEnd` -/
+theorem hlg_log_gt_iff (x : ℝ) (hx : 1 / 12 < x) :
+    0.5 < 0.17883277 * Real.log (12 * x - 0.28466892) + 0.5599107 ↔ hlgGapEnd < x := by
+  have hpos : 0 < 12 * x - 0.28466892 := by linarith
+  have e : (-5991070 / 17883277 : ℝ) = (0.5 - 0.5599107) / 0.17883277 := by norm_num
+  unfold hlgGapEnd
+  rw [div_lt_iff₀ (by norm_num), e, ← lt_sub_iff_add_lt, mul_comm x 12,
+    ← Real.lt_log_iff_exp_lt hpos, div_lt_iff₀ (by norm_num)]
+  constructor <;> intro h <;> linarith
+
+/-- on `x > 1/12` the logarithmic piece stays positive (crude: `log y ≥ 1 − 1/y`) -/
+theorem hlg_log_piece_pos (x : ℝ) (hx : 1 / 12 < x) :
+    0.48 < 0.17883277 * Real.log (12 * x - 0.28466892) + 0.5599107 := by
+  have hpos : (0.7 : ℝ) < 12 * x - 0.28466892 := by linarith
+  have h1 := Real.one_sub_inv_le_log_of_pos (lt_trans (by norm_num) hpos)
+  have h2 : (12 * x - 0.28466892)⁻¹ < (0.7 : ℝ)⁻¹ := by
+    apply inv_strictAnti₀ (by norm_num) hpos
+  have h3 : ((0.7 : ℝ)⁻¹) < 1.43 := by norm_num
+  nlinarith
+
+/-- HLG encode-then-decode on `x ≥ 0`: the identity exactly off the sliver `(1/12, hlgGapEnd]` -/
+theorem hlg_inverse_iff (x : ℝ) (h0 : 0 ≤ x) :
+    hlgDecodePos (hlgEncodePos x) = x ↔ (x ≤ 1 / 12 ∨ hlgGapEnd < x) := by
+  by_cases hx : x ≤ 1 / 12
+  · exact ⟨fun _ => Or.inl hx, fun _ => hlg_inverse_sqrt x h0 hx⟩
+  · have hx' : 1 / 12 < x := not_le.mp hx
+    constructor
+    · intro h
+      right
+      by_contra hc
+      have hle : ¬ (0.5 < 0.17883277 * Real.log (12 * x - 0.28466892) + 0.5599107) :=
+        fun hh => hc ((hlg_log_gt_iff x hx').mp hh)
+      have hp := hlg_log_piece_pos x hx'
+      rw [hlgEncodePos_real, if_neg hx, hlgDecodePos_real, if_pos (not_lt.mp hle)] at h
+      have hle' := not_lt.mp hle
+      nlinarith
+    · rintro (h | h)
+      · exact absurd h hx
+      · exact hlg_inverse_log x hx' ((hlg_log_gt_iff x hx').mpr h)
+
+/-- explicit rational form of `hlg_inverse_iff`, sufficient side -/
+theorem hlg_inverse_of_ge (x : ℝ) (h0 : 0 ≤ x) (hx : x ≤ 1 / 12 ∨ 0.08333334318 ≤ x) :
+    hlgDecodePos (hlgEncodePos x) = x := by
+  rw [hlg_inverse_iff x h0]
+  rcases hx with h | h
+  · exact Or.inl h
+  · exact Or.inr (lt_of_lt_of_le hlgGapEnd_bounds.2 h)
+
+/-- … and on the whole interval `(1/12, 0.08333334317]` the round trip is *not* the identity -/
+theorem hlg_inverse_false_on_gap (x : ℝ) (h1 : 1 / 12 < x) (h2 : x ≤ 0.08333334317) :
+    hlgDecodePos (hlgEncodePos x) ≠ x := by
+  intro h
+  rcases (hlg_inverse_iff x (by linarith)).mp h with h | h
+  · linarith
+  · linarith [hlgGapEnd_bounds.1]
+
+/-- `exp(−0.335009795) < 1 − 0.28466892`, i.e. `ln(1 − B) > −0.335009795` (true value −0.33500979451…) -/
+theorem hlg_exp_lo : Real.exp (-335009795 / 1000000000) < (0.71533108 : ℝ) := by
+  have hx : |(-335009795 / 1000000000 : ℝ)| ≤ 1 := by
+    rw [abs_le]; constructor <;> norm_num
+  have h := Real.exp_bound hx (n := 12) (by norm_num)
+  have habs : |(-335009795 / 1000000000 : ℝ)| = 335009795 / 1000000000 := by
+    rw [abs_of_neg (by norm_num)]; norm_num
+  rw [habs, abs_le] at h
+  obtain ⟨h1, h2⟩ := h
+  have e2 : (∑ m ∈ Finset.range 12, (-335009795 / 1000000000 : ℝ) ^ m / (m.factorial : ℝ)) +
+      (335009795 / 1000000000 : ℝ) ^ 12 *
+      (((12 : ℕ).succ : ℝ) / (((12 : ℕ).factorial : ℝ) * ((12 : ℕ) : ℝ))) < 0.71533108 := by
+    simp only [Finset.sum_range_succ, Finset.sum_range_zero, Nat.factorial]
+    norm_num
+  linarith
+
+/-- the logarithmic piece on `x > 1/12` starts at `0.49999997047… < 0.5`; here a lower bound -/
+theorem hlg_log_piece_gt (x : ℝ) (hx : 1 / 12 < x) :
+    0.49999997 < 0.17883277 * Real.log (12 * x - 0.28466892) + 0.5599107 := by
+  have hpos : (0.71533108 : ℝ) < 12 * x - 0.28466892 := by linarith
+  have h1 : (-335009795 / 1000000000 : ℝ) < Real.log (12 * x - 0.28466892) := by
+    rw [Real.lt_log_iff_exp_lt (by linarith)]
+    exact lt_trans hlg_exp_lo hpos
+  nlinarith
+
+/-- HLG encode-then-decode is within `2e-8` of the identity on all of `x ≥ 0`, and never above -/
+theorem hlg_inverse_approx (x : ℝ) (h0 : 0 ≤ x) :
+    hlgDecodePos (hlgEncodePos x) ≤ x ∧ x - 2e-8 ≤ hlgDecodePos (hlgEncodePos x) := by
+  by_cases hok : x ≤ 1 / 12 ∨ hlgGapEnd < x
+  · rw [(hlg_inverse_iff x h0).mpr hok]
+    constructor <;> linarith
+  · rw [not_or, not_le, not_lt] at hok
+    obtain ⟨hx, hg⟩ := hok
+    have hle : ¬ (0.5 < 0.17883277 * Real.log (12 * x - 0.28466892) + 0.5599107) :=
+      fun hh => absurd ((hlg_log_gt_iff x hx).mp hh) (not_lt.mpr hg)
+    have hlo := hlg_log_piece_gt x hx
+    have hgb := hlgGapEnd_bounds.2
+    rw [hlgEncodePos_real, if_neg (not_le.mpr hx), hlgDecodePos_real, if_pos (not_lt.mp hle)]
+    have hle' := not_lt.mp hle
+    generalize 0.17883277 * Real.log (12 * x - 0.28466892) + 0.5599107 = e at *
+    have hsq1 : e * e ≤ 0.5 * 0.5 := mul_le_mul hle' hle' (by linarith) (by norm_num)
+    have hsq2 : (0.49999997 : ℝ) * 0.49999997 ≤ e * e :=
+      mul_le_mul hlo.le hlo.le (by norm_num) (by linarith)
+    constructor
+    · rw [div_le_iff₀ (by norm_num)]; linarith
+    · rw [le_div_iff₀ (by norm_num)]; linarith
+
+/-! monotonicity: the encoder jumps *down* at `1/12` (0.5 ↦ 0.49999997…), the decoder jumps *up*
+at `0.5` (1/12 ↦ 0.08333334317…) -/
+
+theorem hlgEncodePos_not_monotoneOn : ¬ MonotoneOn (hlgEncodePos : ℝ → ℝ) (Set.Ici 0) := by
+  intro h
+  have h1 : hlgEncodePos (1 / 12 : ℝ) ≤ hlgEncodePos (0.08333334 : ℝ) :=
+    h (by norm_num [Set.mem_Ici]) (by norm_num [Set.mem_Ici]) (by norm_num)
+  have hx : (1 / 12 : ℝ) < 0.08333334 := by norm_num
+  have hnot : ¬ (0.5 < 0.17883277 * Real.log (12 * (0.08333334 : ℝ) - 0.28466892) + 0.5599107) := by
+    rw [hlg_log_gt_iff _ hx]
+    linarith [hlgGapEnd_bounds.1]
+  rw [hlgEncodePos_real, hlgEncodePos_real, if_pos (le_refl _), if_neg (not_le.mpr hx)] at h1
+  have hs : Real.sqrt (3 * (1 / 12 : ℝ)) = 0.5 := by
+    rw [show (3 * (1 / 12) : ℝ) = 0.5 * 0.5 by norm_num]
+    exact Real.sqrt_mul_self (by norm_num)
+  rw [hs] at h1
+  -- equality would put 0.08333334 at the exact end of the gap; exclude it with the strict bound
+  have hlt : 0.17883277 * Real.log (12 * (0.08333334 : ℝ) - 0.28466892) + 0.5599107 < 0.5 := by
+    have hpos : (0 : ℝ) < 12 * 0.08333334 - 0.28466892 := by norm_num
+    have e : (-5991070 / 17883277 : ℝ) = (0.5 - 0.5599107) / 0.17883277 := by norm_num
+    have h2 : Real.log (12 * (0.08333334 : ℝ) - 0.28466892) < -5991070 / 17883277 := by
+      rw [Real.log_lt_iff_lt_exp hpos]
+      have := hlg_exp_enclosure.1
+      norm_num at this ⊢
+      linarith
+    rw [e, lt_div_iff₀ (by norm_num)] at h2
+    linarith
+  linarith
+
+theorem hlgEncodePos_sqrt_le (x : ℝ) (hx : x ≤ 1 / 12) : hlgEncodePos x ≤ 0.5 := by
+  rw [hlgEncodePos_real, if_pos hx, Real.sqrt_le_iff]
+  constructor
+  · norm_num
+  · nlinarith
+
+/-- the encoder is monotone once the sliver is left out -/
+theorem hlgEncodePos_monotoneOn_off_gap :
+    MonotoneOn (hlgEncodePos : ℝ → ℝ) (Set.Iic (1 / 12) ∪ Set.Ioi hlgGapEnd) := by
+  have hg : (1 / 12 : ℝ) < hlgGapEnd := lt_trans (by norm_num) hlgGapEnd_bounds.1
+  intro x hx y hy hxy
+  simp only [Set.mem_union, Set.mem_Iic, Set.mem_Ioi] at hx hy
+  rcases hx with hx | hx <;> rcases hy with hy | hy
+  · exact hlgEncodePos_monotoneOn_sqrt hx hy hxy
+  · have h1 := hlgEncodePos_sqrt_le x hx
+    have hy' : 1 / 12 < y := lt_trans hg hy
+    have h2 := (hlg_log_gt_iff y hy').mpr hy
+    rw [hlgEncodePos_real y, if_neg (not_le.mpr hy')]
+    linarith
+  · linarith
+  · exact hlgEncodePos_monotoneOn_log (lt_trans hg hx) (lt_trans hg hy) hxy
+
+theorem hlgDecodePos_monotoneOn : MonotoneOn (hlgDecodePos : ℝ → ℝ) (Set.Ici 0) := by
+  intro x hx y hy hxy
+  simp only [Set.mem_Ici] at hx hy
+  by_cases hx5 : x ≤ 0.5 <;> by_cases hy5 : y ≤ 0.5
+  · exact hlgDecodePos_monotoneOn_sq ⟨hx, hx5⟩ ⟨hy, hy5⟩ hxy
+  · rw [hlgDecodePos_real, hlgDecodePos_real, if_pos hx5, if_neg hy5]
+    have hy5' : 0.5 < y := not_le.mp hy5
+    have h1 : Real.exp (-5991070 / 17883277) ≤ Real.exp ((y - 0.5599107) / 0.17883277) := by
+      apply Real.exp_le_exp.mpr
+      rw [show (-5991070 / 17883277 : ℝ) = (0.5 - 0.5599107) / 0.17883277 by norm_num]
+      apply div_le_div_of_nonneg_right _ (by norm_num); linarith
+    have h2 := hlg_exp_enclosure.1
+    have h3 : x * x ≤ 0.5 * 0.5 := mul_le_mul hx5 hx5 hx (by norm_num)
+    rw [div_le_div_iff₀ (by norm_num) (by norm_num)]
+    linarith
+  · linarith [not_le.mp hx5]
+  · exact hlgDecodePos_monotoneOn_exp (not_le.mp hx5) (not_le.mp hy5) hxy
+
 /-! ### odd extension -/
 
 theorem odd_real (f : ℝ → ℝ) (x : ℝ) : odd f x = if 0 ≤ x then f x else - f (-x) := by
@@ -1834,6 +2043,20 @@ theorem srgb_inverse_odd (x : ℝ) (hx : |x| ≤ 0.0031308 ∨ 0.00313081 ≤ |x
   · rcases hx with h | h
     · exact srgb_inverse_linear _ h
     · exact srgb_inverse_power _ h
+
+theorem hlgEncodePos_pos (y : ℝ) (hy : 0 < y) : 0 < hlgEncodePos y := by
+  by_cases h : y ≤ 1 / 12
+  · rw [hlgEncodePos_real, if_pos h]; exact Real.sqrt_pos.mpr (by linarith)
+  · have := hlg_log_piece_pos y (not_le.mp h)
+    rw [hlgEncodePos_real, if_neg h]; linarith
+
+/-- the sign-symmetric kernels (`copysign (f |x|) x`) on the whole line -/
+theorem hlg_inverse_odd (x : ℝ) (hx : |x| ≤ 1 / 12 ∨ 0.08333334318 ≤ |x|) :
+    hlgDecode (hlgEncode x) = x := by
+  unfold hlgDecode hlgEncode
+  apply odd_inverse hlgEncodePos hlgDecodePos x hlgEncodePos_pos
+  · rw [hlgEncodePos_real, if_pos (by norm_num)]; exact Real.sqrt_nonneg _
+  · exact hlg_inverse_of_ge _ (abs_nonneg x) hx
 
 end Real
 
